@@ -40,7 +40,7 @@ func (o opDef) String() string {
 }
 
 var narrowKeys = []string{"/tables/a", "/tables/a/lease", "/tables/sys/idseq"}
-var wideKeys = []string{"/tables/a", "/tables/a/lease", "/tables/sys/idseq", "/cleanup/1/10001", "queue/a/1", "/tables/é世"}
+var wideKeys = []string{"/tables/a", "/tables/a/lease", "/tables/sys/idseq", "/cleanup/1/10001", "queue/a/1", "/tables/é世", "/tables/ab/x/y"}
 
 // spellKeys are pairwise different keys that a normalisation of the key (path cleaning, trimming of
 // slashes or blanks, case folding, unicode folding) would merge: the store is a map over the exact
@@ -137,7 +137,7 @@ func entry(index uint64, o opDef, ver uint64) dbsm.Entry {
 func newLFSM() *kv.LFSM { return kv.NewLFSM()(1000, 1).(*kv.LFSM) }
 
 var patterns = []string{"/tables/*", "/cleanup/1/*", "queue/a/*", "/tables/a/*", "*"}
-var listPaths = []string{"/tables", "/tables/a", "/", "/cleanup/1", "queue/a", "/tables/sys"}
+var listPaths = []string{"/tables", "/tables/a", "/", "/cleanup/1", "queue/a", "/tables/sys", "/tables/ab", "/cleanup"}
 
 // lookups renders every lookup answer of a store.
 func lookups(f *kv.LFSM, keys []string) string {
@@ -158,6 +158,72 @@ func lookups(f *kv.LFSM, keys []string) string {
 func listings(f *kv.LFSM) string {
 	var sb strings.Builder
 	for _, p := range listPaths {
+		l, _ := f.Lookup(kv.QueryList{Path: p})
+		d, _ := f.Lookup(kv.QueryListDir{Path: p})
+		fmt.Fprintf(&sb, "list(%s)=%v dir=%v;", p, l, d)
+	}
+	return sb.String()
+}
+
+// modelListings is the listing of a directory tree written down independently of the store: for a
+// canonical path p other than the root, list(p) holds the first path element below p of every key at
+// or below p (the key's own last element when the key is p), listdir(p) the first element below p of
+// every key whose DIRECTORY lies strictly below p. Elements are compared whole (a sibling whose name
+// merely starts with the directory's name is not below it). Returns "" for keys it does not define.
+func (m *model) modelListings() string {
+	var sb strings.Builder
+	for _, p := range listPaths {
+		if p == "/" {
+			continue
+		}
+		pc := strings.Split(p, "/")
+		under := func(c []string) bool {
+			if len(c) < len(pc) {
+				return false
+			}
+			for i := range pc {
+				if c[i] != pc[i] {
+					return false
+				}
+			}
+			return true
+		}
+		lset, dset := map[string]bool{}, map[string]bool{}
+		for _, k := range m.keys() {
+			if k != path.Clean(k) {
+				return "" // spellings outside the canonical form: the tree reading is not defined
+			}
+			kc := strings.Split(k, "/")
+			if k == p {
+				lset[kc[len(kc)-1]] = true
+				continue
+			}
+			if dc := kc[:len(kc)-1]; under(dc) {
+				lset[kc[len(pc)]] = true
+				if len(dc) > len(pc) {
+					dset[dc[len(pc)]] = true
+				}
+			}
+		}
+		srt := func(s map[string]bool) []string {
+			out := make([]string, 0)
+			for k := range s {
+				out = append(out, k)
+			}
+			sort.Strings(out)
+			return out
+		}
+		fmt.Fprintf(&sb, "list(%s)=%v dir=%v;", p, srt(lset), srt(dset))
+	}
+	return sb.String()
+}
+
+func listingsNoRoot(f *kv.LFSM) string {
+	var sb strings.Builder
+	for _, p := range listPaths {
+		if p == "/" {
+			continue
+		}
 		l, _ := f.Lookup(kv.QueryList{Path: p})
 		d, _ := f.Lookup(kv.QueryListDir{Path: p})
 		fmt.Fprintf(&sb, "list(%s)=%v dir=%v;", p, l, d)
@@ -289,6 +355,11 @@ func run(alpha []opDef, keys []string, c Case) (vs []viol, outcome string, nontr
 	if a, b := listings(f), listings(fresh); a != b {
 		vs = append(vs, viol{"listing-depends-on-history", fmt.Sprintf("store %s\nfresh %s", a, b)})
 	}
+	if want := m.modelListings(); want != "" {
+		if got := listingsNoRoot(f); got != want {
+			vs = append(vs, viol{"listing-differs-from-the-directory-tree-of-the-keys", fmt.Sprintf("store %s\nmodel %s", got, want)})
+		}
+	}
 	// snapshot -> recover into a fresh store (that already holds something else)
 	ctx, err := f.PrepareSnapshot()
 	if err != nil {
@@ -401,7 +472,7 @@ func Run(r *evid.Run) {
 	if r.Thorough() {
 		depth = 4
 	}
-	r.Rule(fmt.Sprintf("deep-narrow: every sequence of length 0..%d over %d updates ({set,delete} x 3 keys x versions {0,current,previous,current+1} x 2 values); shallow-wide: every sequence of length 0..2 over %d updates (6 keys incl. non-ASCII, far-future version, empty value); entries built exactly as RaftStore marshals them and applied to the real kv.LFSM with non-dense indices. After each sequence: per-update result codes and payloads, get/exists on all keys and the callers' glob patterns vs a plain map model; list/listdir vs a fresh store loaded with the model's pairs; snapshot -> recover into a non-empty store; a snapshot PREPARED before every entry and saved only after the last must restore to the store at its prepare point, and a replica recovered from it that replays the tail must reproduce the tail's results and the final store; a second replica under every batching. Non-trivial: at least one successful set; distinct = distinct (results, lookups) renderings", depth, len(narrow), len(wide)))
+	r.Rule(fmt.Sprintf("deep-narrow: every sequence of length 0..%d over %d updates ({set,delete} x 3 keys x versions {0,current,previous,current+1} x 2 values); shallow-wide: every sequence of length 0..2 over %d updates (7 keys incl. non-ASCII and a sibling directory whose name extends another's, far-future version, empty value); entries built exactly as RaftStore marshals them and applied to the real kv.LFSM with non-dense indices. After each sequence: per-update result codes and payloads, get/exists on all keys and the callers' glob patterns vs a plain map model; list/listdir vs a fresh store loaded with the model's pairs and (canonical keys, every listed path but the root) vs the directory tree of the keys written down independently, path elements compared whole; snapshot -> recover into a non-empty store; a snapshot PREPARED before every entry and saved only after the last must restore to the store at its prepare point, and a replica recovered from it that replays the tail must reproduce the tail's results and the final store; a second replica under every batching. Non-trivial: at least one successful set; distinct = distinct (results, lookups) renderings", depth, len(narrow), len(wide)))
 	total := par.SeqCount(len(narrow), depth)
 	done := par.For(total, r.Expired, func(i int64) {
 		c := Case{Seq: par.SeqAt(len(narrow), depth, i)}
